@@ -164,7 +164,7 @@ CHECKS = {
              "SketchSmoother/MeshSmoother is run on each topology (random similarity, jittered interior, fixed sets by index "
              "or position, 1 or 300 sweeps) and TLC judges each recorded run: moved points are free interior points, every "
              "free point ends at its neighbours' average; exact one-sweep average, regular-lattice recovery and copy-back "
-             "consistency for every face/block sharing a point.",
+             "consistency for every face/block sharing a point. Quad maps are also put together from two pieces by MappedSketch.merge (Merge.tla: model-checked state machine of the merge, every finished merge replayed index by index) and smoothed across the seam.",
         note="Convergence judged after 300 sweeps to 1e-6 of the cell size on grids up to 4x4 / 2x2x2 (quick).",
         technique="TLA+ spec Smooth.tla: declarative boundary/neighbour relations, TLC generator of topologies + TLC trace acceptor",
         ref="DESIGN.md section 4 C15"),
